@@ -63,11 +63,13 @@ def replay_case(case):
             if (n + p + len(name)) % 2:
                 # the same cost object has already been fitted on and asked about OTHER data (two more rows, other
                 # values): the values it returns for X afterwards are those of X
-                W = np.vstack([X[::-1] * 2.0 + 1.0, X[:2] - 3.0])
-                try:
-                    cost.fit(W).evaluate(np.array([[0, W.shape[0]]]))
-                except Exception:
-                    pass  # whether W is acceptable to this cost is not the point here
+                # first data of ANOTHER shape, then data of the SAME shape as X (a stale cache keyed on the shape survives
+                # only the second)
+                for W in (np.vstack([X[::-1] * 2.0 + 1.0, X[:2] - 3.0]), X[::-1] * 3.0 - 1.0):
+                    try:
+                        cost.fit(W).evaluate(np.array([[0, W.shape[0]]]))
+                    except Exception:
+                        pass  # whether W is acceptable to this cost is not the point here
             cost.fit(X)
         except Exception as e:
             fails.append(("fit_raises", {"cost": name, "error": repr(e)[:200]}))
